@@ -13,7 +13,9 @@
 #include <etl/chrono.hpp>
 #include <etl/cstring.hpp>
 #include <etl/expected.hpp>
+#include <etl/cwchar.hpp>
 #include <etl/inplace_vector.hpp>
+#include <etl/linalg.hpp>
 #include <etl/mdspan.hpp>
 #include <etl/numeric.hpp>
 #include <etl/optional.hpp>
@@ -287,7 +289,11 @@ void table(Tab& t)
     SCN("variant<int,char,long>", "operator[](index_v<I>) &", "active=" #A ",requested=%s", #R, true, { V v(etl::in_place_index<A>, 1); WATCH(v); use(v[etl::index_v<R>]); });          \
     SCN("variant<int,char,long>", "operator[](index_v<I>) const&", "active=" #A ",requested=%s", #R, true, { V const v(etl::in_place_index<A>, 1); WATCH(v); use(v[etl::index_v<R>]); }); \
     SCN("variant<int,char,long>", "unchecked_get<I>(v&)", "active=" #A ",requested=%s", #R, true, { V v(etl::in_place_index<A>, 1); WATCH(v); use(etl::unchecked_get<R>(v)); });        \
-    SCN("variant<int,char,long>", "unchecked_get<I>(v const&)", "active=" #A ",requested=%s", #R, true, { V const v(etl::in_place_index<A>, 1); WATCH(v); use(etl::unchecked_get<R>(v)); });
+    SCN("variant<int,char,long>", "unchecked_get<I>(v const&)", "active=" #A ",requested=%s", #R, true, { V const v(etl::in_place_index<A>, 1); WATCH(v); use(etl::unchecked_get<R>(v)); }); \
+    SCN("variant<int,char,long>", "operator[](index_v<I>) &&", "active=" #A ",requested=%s", #R, true, { V v(etl::in_place_index<A>, 1); WATCH(v); auto&& r = static_cast<V&&>(v)[etl::index_v<R>]; use(r); }); \
+    SCN("variant<int,char,long>", "operator[](index_v<I>) const&&", "active=" #A ",requested=%s", #R, true, { V const v(etl::in_place_index<A>, 1); WATCH(v); auto&& r = static_cast<V const&&>(v)[etl::index_v<R>]; use(r); }); \
+    SCN("variant<int,char,long>", "unchecked_get<I>(v&&)", "active=" #A ",requested=%s", #R, true, { V v(etl::in_place_index<A>, 1); WATCH(v); auto&& r = etl::unchecked_get<R>(static_cast<V&&>(v)); use(r); }); \
+    SCN("variant<int,char,long>", "unchecked_get<I>(v const&&)", "active=" #A ",requested=%s", #R, true, { V const v(etl::in_place_index<A>, 1); WATCH(v); auto&& r = etl::unchecked_get<R>(static_cast<V const&&>(v)); use(r); });
         VPAIR(0, 1)
         VPAIR(0, 2)
         VPAIR(1, 0)
@@ -344,6 +350,33 @@ void table(Tab& t)
     SCN("cstring", "strchr(str,ch)", "%s", "str=null", true, { char const* volatile s = nullptr; use(etl::strchr((char const*)s, 'a')); });
     SCN("cstring", "memmove(dest,src,n)", "%s", "dest=null", true, { vf::Buf<char> s(2); void* volatile d = nullptr; etl::memmove(d, s.data(), 1); });
     SCN("cstring", "memmove(dest,src,n)", "%s", "src=null", true, { vf::Buf<char> d(2); void const* volatile s = nullptr; etl::memmove(d.data(), s, 1); });
+    SCN("cstring", "strncpy(dest,src,n)", "%s", "dest=null", true, { vf::Buf<char> s(2); s[0] = 'a'; s[1] = 0; char* volatile d = nullptr; etl::strncpy(d, s.data(), 1); });
+    SCN("cstring", "strchr(char*,ch)", "%s", "str=null", true, { char* volatile s = nullptr; use(etl::strchr((char*)s, 'a')); });
+    SCN("cwchar", "wcscpy(dest,src)", "%s", "dest=null", true, { vf::Buf<wchar_t> s(2); s[0] = L'a'; s[1] = 0; wchar_t* volatile d = nullptr; etl::wcscpy(d, s.data()); });
+    SCN("cwchar", "wcscpy(dest,src)", "%s", "src=null", true, { vf::Buf<wchar_t> d(2); wchar_t const* volatile s = nullptr; etl::wcscpy(d.data(), s); });
+    SCN("cwchar", "wcsncpy(dest,src,n)", "%s", "dest=null", true, { vf::Buf<wchar_t> s(2); s[0] = L'a'; s[1] = 0; wchar_t* volatile d = nullptr; etl::wcsncpy(d, s.data(), 1); });
+    SCN("cwchar", "wcsncpy(dest,src,n)", "%s", "src=null", true, { vf::Buf<wchar_t> d(2); wchar_t const* volatile s = nullptr; etl::wcsncpy(d.data(), s, 1); });
+    SCN("bitset<4>", "ctor(string_view,pos,n)", "%s", "more-characters-than-bits", true, { vf::Buf<char> b(6); std::memset(b.data(), '1', 6); etl::bitset<4> x(etl::string_view(b.data(), 6)); use(x); });
+    for (std::size_t b : beyond) {
+        std::size_t p9 = b >= SMAX / 2 ? b : 9 + b;
+        SCN("basic_bitset<9,uint8>", "operator[](pos)", "%s", bcls(p9, 9), true, { etl::basic_bitset<9, unsigned char> x; WATCH(x); x[p9] = true; });
+    }
+    {
+        using E3 = etl::extents<int, etl::dynamic_extent>;
+        using E2 = etl::extents<int, etl::dynamic_extent, etl::dynamic_extent>;
+        SCN("linalg", "add(x,y,z)", "%s", "x.extents!=y.extents", true, { vf::Buf<int> a(3), b(4), c(3); etl::mdspan<int, E3> x(a.data(), 3), y(b.data(), 4), z(c.data(), 3); for (int i = 0; i < 3; ++i) { a[i] = c[i] = 0; } for (int i = 0; i < 4; ++i) { b[i] = 0; } etl::linalg::add(x, y, z); });
+        SCN("linalg", "add(x,y,z)", "%s", "x.extents!=z.extents", true, { vf::Buf<int> a(3), b(3), c(2); etl::mdspan<int, E3> x(a.data(), 3), y(b.data(), 3), z(c.data(), 2); for (int i = 0; i < 3; ++i) { a[i] = b[i] = 0; } c[0] = c[1] = 0; etl::linalg::add(x, y, z); });
+        SCN("linalg", "copy(x,y)", "%s", "extents-differ", true, { vf::Buf<int> a(3), b(2); etl::mdspan<int, E3> x(a.data(), 3), y(b.data(), 2); for (int i = 0; i < 3; ++i) { a[i] = 0; } b[0] = b[1] = 0; etl::linalg::copy(x, y); });
+        SCN("linalg", "swap_elements(x,y)", "%s", "extents-differ", true, { vf::Buf<int> a(3), b(2); etl::mdspan<int, E3> x(a.data(), 3), y(b.data(), 2); for (int i = 0; i < 3; ++i) { a[i] = 0; } b[0] = b[1] = 0; etl::linalg::swap_elements(x, y); });
+        SCN("linalg", "matrix_vector_product(a,x,y)", "%s", "a.extent(1)!=x.extent(0)", true, { vf::Buf<int> a(6), b(2), c(2); for (int i = 0; i < 6; ++i) { a[i] = 1; } b[0] = b[1] = c[0] = c[1] = 0; etl::mdspan<int, E2> m(a.data(), 2, 3); etl::mdspan<int, E3> x(b.data(), 2), y(c.data(), 2); etl::linalg::matrix_vector_product(m, x, y); });
+        SCN("linalg", "matrix_vector_product(a,x,y)", "%s", "a.extent(0)!=y.extent(0)", true, { vf::Buf<int> a(6), b(3), c(3); for (int i = 0; i < 6; ++i) { a[i] = 1; } for (int i = 0; i < 3; ++i) { b[i] = c[i] = 0; } etl::mdspan<int, E2> m(a.data(), 2, 3); etl::mdspan<int, E3> x(b.data(), 3), y(c.data(), 3); etl::linalg::matrix_vector_product(m, x, y); });
+    }
+    {
+        using Ext = etl::extents<int, 2, 3>;
+        for (unsigned r : {2u, 3u, 255u}) {
+            SCN("layout_stride::mapping<extents<int,2,3>>", "stride(r)", "r=%u", r, true, { etl::array<int, 2> st{3, 1}; etl::layout_stride::mapping<Ext> mp(Ext{}, st); WATCH(mp); use(mp.stride((unsigned char)r)); });
+        }
+    }
     SCN("static_set<int,3>", "ctor(first,last)", "%s", "range>capacity", true, { vf::Buf<int> src(4); for (int i = 0; i < 4; ++i) { src[i] = i; } int const* f = src.data(); etl::static_set<int, 3> s(f, f + 4); use(s); });
     SCN("static_set<int,3>", "ctor(first,last)", "%s", "first>last", true, { vf::Buf<int> src(4); for (int i = 0; i < 4; ++i) { src[i] = i; } int const* f = src.data(); etl::static_set<int, 3> s(f + 2, f); use(s); });
 }
